@@ -1,6 +1,7 @@
 package regosym
 
 import (
+	"encoding/json"
 	"fmt"
 	"regexp"
 	"sort"
@@ -151,6 +152,14 @@ func ScopeFor(p Program, n, slots int, maxScalars int) Scope {
 					}
 				}
 			case "minInclusive", "minExclusive", "maxInclusive", "maxExclusive":
+				if a.Bound != "" {
+					// the bound itself, its neighbours within the printed precision and beyond it
+					add(ast.Number(json.Number(a.Bound)))
+					for _, nb := range floatNeighbours[a.Bound] {
+						add(ast.Number(json.Number(nb)))
+					}
+					break
+				}
 				add(num(a.N - 1))
 				add(num(a.N))
 				add(num(a.N + 1))
@@ -163,6 +172,9 @@ func ScopeFor(p Program, n, slots int, maxScalars int) Scope {
 					add(str("zz"))
 				case ast.Number:
 					add(num(77))
+					if a.FloatData || hasNonInteger(a.Values) {
+						add(ast.Number(json.Number("2.5")))
+					}
 				}
 			case "datatype":
 				add(str("s"))
@@ -243,6 +255,48 @@ func FamilyBoundaries() []Program {
 			one("v", Quant{P(0), true, 0, And{[]Formula{inner}}}),
 			one("v", Quant{P(0), false, 0, And{[]Formula{inner}}}),
 		)
+	}
+	return out
+}
+
+// floatNeighbours: data values around each non-integer bound of FamilyFloatBounds - closer to the
+// bound than six decimals can tell apart, and clearly on either side.
+var floatNeighbours = map[string][]string{
+	"1.0000004": {"1.0000002", "1.0000006", "1"},
+	"2.5":       {"2", "3", "2.4999999"},
+	"0.1":       {"0.0999999", "0.1000001", "0"},
+	"-3.25":     {"-3.2500001", "-3.2499999", "-3"},
+}
+
+// FamilyFloatBounds: value ranges whose bound is not an integer, among them bounds that need more
+// than six decimals; data values sit on both sides of the bound and on it.
+func FamilyFloatBounds(thorough bool) []Program {
+	var out []Program
+	bounds := []string{"1.0000004", "2.5"}
+	if thorough {
+		bounds = append(bounds, "0.1", "-3.25")
+	}
+	for _, b := range bounds {
+		for _, k := range []string{"minInclusive", "minExclusive", "maxInclusive", "maxExclusive"} {
+			a := Atom{Path: P(0), Kind: k, Bound: b}
+			out = append(out, one("v", And{[]Formula{a}}))
+			if thorough {
+				out = append(out, one("v", Not{And{[]Formula{a}}}))
+			}
+		}
+	}
+	return out
+}
+
+// FamilyFloatSets: membership in a set of numbers where the set or the data holds numbers that
+// are not integers.
+func FamilyFloatSets(thorough bool) []Program {
+	f := func(s string) ast.Value { return ast.Number(json.Number(s)) }
+	a := Atom{Path: P(0), Kind: "in", Values: []ast.Value{f("1.5"), num(2)}}
+	b := Atom{Path: P(0), Kind: "in", Values: []ast.Value{num(1), num(2)}, FloatData: true}
+	out := []Program{one("v", And{[]Formula{a}}), one("v", And{[]Formula{b}})}
+	if thorough {
+		out = append(out, one("v", Not{And{[]Formula{a}}}), one("v", Not{And{[]Formula{b}}}))
 	}
 	return out
 }
